@@ -613,6 +613,38 @@ def rule_chain(ctx):
     return res.finish(3)
 
 
+def rule_ownsolver(ctx):
+    """The point a logistic fit returns is a stationary point of *its* penalised objective only if it comes out of the solver
+    run on that objective.  A special case that hands the data to a sibling model (the binomial solver for two classes) and
+    re-packs its solution optimises the sibling's objective - the same likelihood, but another penalty for the same alpha."""
+    res = RuleResult("R-C12-ownsolver", "every non-error path of the logistic fits goes through the solver run on the model's own problem (no early return of a re-packed sibling fit)")
+    F = ctx.facts()
+    fns = [f for f in F.all_fns() if f["d"]["krate"] == "linfa_logistic" and f["d"]["name"] == "fit" and (f["d"].get("trait") or "").endswith("Fit") and not f.get("exp")]
+    if len(fns) < 2:
+        res.missing_anchor("the two Fit impls of linfa-logistic (found %d)" % len(fns))
+    for fn in fns:
+        c = fn["crate"]
+        r = Render(c)
+        key = fn_key(fn)
+        res.instance(key)
+        run = next((y for y in walk(fn["body"]) if y.get("k") in ("MethodCall", "Call") and ((y.get("name") in ("run_solver", "setup_problem", "run")) or (y.get("k") == "Call" and (c.dfn(strip(y["f"]).get("def")) or {}).get("name") in ("run_solver", "setup_problem")))), None)
+        if run is None:
+            res.undecided("%s : solver-run" % key, "no setup_problem / run_solver call (fail closed)", fn_loc(fn))
+            continue
+        early = None
+        for y in walk(fn["body"]):
+            if y.get("k") == "Ret" and y.get("e") is not None and (y.get("ln") or 0) < (run.get("ln") or 0):
+                e0 = peel_refs(y["e"])
+                nm = (c.dfn(strip(e0["f"]).get("def")) or {}).get("name") if e0.get("k") == "Call" and strip(e0["f"]).get("k") == "Path" else None
+                if nm not in ("Err", "from_residual"):
+                    early = y
+        if early is not None:
+            res.violate("%s : fit-bypasses-own-solver" % key, "`%s` returns a model before the model's own problem is set up and solved: what it returns is the optimum of another objective (a sibling's penalty for the same alpha)" % r.e(early)[:60], fn_loc(fn, early.get("ln")))
+        else:
+            res.ok()
+    return res.finish(2)
+
+
 def rules(tier):
     from . import carry, c04
     from . import extrema
@@ -628,4 +660,4 @@ def rules(tier):
             carry.make_clone_rule("R-C12-clone", {"linfa_logistic", "linfa_linear"}, 6), carry.make_setter_rule("R-C12-override", {"linfa_logistic", "linfa_linear"}, 8), c04.make_carry_rule("R-C12-carry", {"LogisticRegressionParams", "TweedieRegressorParams"}, 6),
             extrema.make_rule("R-C12-extrema", "the maxima the logistic log-sum-exp / soft-max are shifted by are real maxima: the folds start from -infinity / min_value or from data", lambda f: f["d"]["krate"] == "linfa_logistic", 1, "the max folds of log_sum_exp / softmax in linfa-logistic"),
             precision.make_rule("R-C12-precision", lambda f: f["d"]["krate"] in ("linfa_logistic", "linfa_linear"), 100, "linfa-logistic and linfa-linear"),
-            carry.make_accessor_rule("R-C12-accessor", {"linfa_logistic", "linfa_linear"}, 8), carry.make_ctor_rule("R-C12-ctor", {"linfa_logistic", "linfa_linear"}, 1)]
+            carry.make_accessor_rule("R-C12-accessor", {"linfa_logistic", "linfa_linear"}, 8), carry.make_ctor_rule("R-C12-ctor", {"linfa_logistic", "linfa_linear"}, 1), rule_ownsolver]
